@@ -13,6 +13,7 @@ class Renderer:
         self.prelude = meta["prelude"]
         self.bases = meta["bases"]
         self.ctlvar = meta["ctlvar"]
+        self.locals = meta["locals"]
 
     # ---- small helpers ------------------------------------------------------------------
     def txt(self, n):
@@ -121,6 +122,16 @@ class Renderer:
                 return '__asm__("nop");'
             if k == "empty":
                 return ";"
+        if fm == "sinitaddr":
+            scalar, struct, array = {"auto": ("li", "lst", "lar"), "tls_file": ("gtl", "gtls", "gtla"), "tls_block": ("ltl", "ltls", "ltla"),
+                                     "tls_extern": ("gtle", "gtles", "gtlea"), "static": ("gi", "gt", "ga")}[f["dur"]]
+            e = {"scalar": "&" + scalar, "member": "&%s.q" % struct, "elem": "&%s[1]" % array, "decay": array}[f["shape"]]
+            return "static int *zv = %s;" % e
+        if fm == "tdshadow":
+            sp = {"td_t": "td_t ", "struct_S": "struct S ", "union_U": "union U ", "enum_E": "enum E ", "void_ptr": "void *", "_Bool": "_Bool ",
+                  "int": "int ", "ptr_td": "td_t *"}[f["spec"]]
+            d = sp + "td_t"
+            return {"obj": d + ";", "param": "int zfn(%s);" % d, "member": "struct zs { %s; int z; };" % d}[f["where"]]
         if fm == "swcase":
             return "switch (%s) { case %s: ; case %s: ; }" % (self.ctlvar[f["ct"]], self.caseconst(f["a"]), self.caseconst(f["b"]))
         if fm == "ctl":
@@ -338,6 +349,7 @@ class Renderer:
         out.append("%s(int pa%s)" % (self.decl(ret, "zbase").replace("zbase", "zbase", 1), ", ..." if b["var"] else ""))
         out.append("{")
         out += ["\t" + e["decl"] for n, e in sorted(self.ents.items()) if e["decl"] and e["loc"]]
+        out += ["\t" + l for l in self.locals]
         if b["var"]:
             out += ["\t__builtin_va_list ap;", "\t__builtin_va_start(ap, pa);"]
         out.append("L1: ;")
